@@ -3,7 +3,8 @@
 
    What is modelled, and how it is written down:
    * NameTrie[V] (simple_trie.go) as a heap of nodes addressed by node id (Go pointers): every node has its value,
-     its key (the component's string form, interned to a number by the harness), its parent pointer, its depth and
+     its key (the component's TLV encoding — its URI string form in the pinned code, see Keys.v — interned to a number by
+     the harness), its parent pointer, its depth and
      its child map (option: None is a nil Go map).  Nodes are never freed: a node removed from its parent's map
      stays in the heap, exactly like a Go object that a timer closure still points to.
    * ExactMatch / PrefixMatch / MatchAlways / Delete / DeleteIf as in the code; every recursion that climbs parent
